@@ -32,6 +32,19 @@ class BodyError(Exception):
     pass
 
 
+class BodyBase(BaseException):
+    pass
+
+
+# errnos injected per call (C04 only needs "the call failed"; two values where the code might look at errno)
+FAULT_ERRNO = {'os.fsync': (5, 28), 'file.flush': (28,), 'file.close': (28, 5), 'file.write': (28,), 'os.rename': (18, 13),
+               'os.link': (17, 31), 'os.open': (28,), 'os.fdopen': (12,), 'os.chmod': (1,), 'os.unlink': (1,), 'os.stat': (13,)}
+
+# how the with-block is left: 0 normally, 1 an Exception, 2-5 BaseExceptions that are not Exceptions
+RAISE = {1: BodyError, 2: KeyboardInterrupt, 3: SystemExit, 4: GeneratorExit, 5: BodyBase}
+BODY_EXC = (BodyError, BodyBase, KeyboardInterrupt, SystemExit, GeneratorExit)
+
+
 # the save as run under `strace -f` (syscall view): argv = repo, dest, json(case)
 SYS_CHILD = r"""
 import sys, os, json
@@ -47,16 +60,26 @@ if case['perms'] is not None:
 if case.get('buffering', -1) != -1 and not (case['txt'] and case['buffering'] == 0):
     kw['buffering'] = case['buffering']
 class BodyError(Exception): pass
+class BodyBase(BaseException): pass
+RAISE = {1: BodyError, 2: KeyboardInterrupt, 3: SystemExit, 4: GeneratorExit, 5: BodyBase}
 os.umask(case['umask'])
 os.write(2, b'BV-MARK-BEGIN')
 try:
     with fu.atomic_save(dest, **kw) as f:
         for n in case['sizes']:
             f.write('\x01' * n if case['txt'] else b'\x01' * n)
+        post = case.get('post')
+        if post in ('seek0', 'readback'):
+            f.seek(0)
+        if post == 'readback':
+            f.read()
+            f.seek(0)
+        if post == 'tell':
+            f.tell()
         if case['raises']:
-            raise BodyError()
+            raise RAISE[case['raises']]()
     out = 'ok'
-except BodyError:
+except (BodyError, BodyBase, KeyboardInterrupt, SystemExit, GeneratorExit):
     out = 'body'
 except OSError as e:
     out = 'os:%s' % e.errno
@@ -189,7 +212,9 @@ class C04(Property):
     THOROUGH_BUDGET_S = 600
     RULE = ('a case is one whole save: overwrite on/off x destination absent/present x text/binary x write pattern '
             '(none, one, many, large) x block raises or not, plus stale-part/overwrite_part, file_perms, '
-            'rm_part_on_exc=False, buffering=0 and (seeded) random write patterns. For each case the recorded event '
+            'rm_part_on_exc=False, buffering=0, bodies that rewind / read back / tell after writing, blocks left '
+            'through KeyboardInterrupt / SystemExit / GeneratorExit / another BaseException, one injected OS failure at '
+            'every call of three (thorough: 48) base saves, and (seeded) random write patterns. For each case the recorded event '
             'trace is judged by the Lean SafeTrace predicate and the save is re-run in a child process that is killed '
             'immediately before every recorded call (and after the last). Non-trivial = the trace contains a '
             'publishing event and at least one kill point on each side of it; distinct = distinct case.')
@@ -238,6 +263,27 @@ class C04(Property):
             yield dict(base, dest=dest, rm=0, raises=1)
             yield dict(base, dest=dest, buffering=0, sizes=[4, 70000, 1])
             yield dict(base, dest=dest, sizes=[8192, 8192, 1], txt=1)
+        # bodies that do more than write: rewind, read back what they wrote, ask for the position
+        for dest, txt, post, sizes in itertools.product((None, [0o644, 11]), (0, 1), ('seek0', 'readback', 'tell'), ([5], [3, 70000], [])):
+            yield dict(base, dest=dest, txt=txt, post=post, sizes=sizes)
+        yield dict(base, dest=[0o644, 11], ow=0, post='seek0')
+        yield dict(base, dest=[0o644, 11], post='readback', raises=1)
+        # the with-block left through a BaseException that is not an Exception (Ctrl-C, sys.exit(), generator close)
+        for dest, raises, sizes in itertools.product((None, [0o644, 11]), (2, 3, 4, 5), ([5], [3, 70000])):
+            yield dict(base, dest=dest, raises=raises, sizes=sizes)
+        yield dict(base, dest=[0o644, 11], ow=0, raises=2)
+        yield dict(base, dest=None, txt=1, raises=3, rm=0)
+        # one operating-system failure at every call of the save (the destination must stay old-or-complete-new,
+        # and a failed flush / fsync / close must not be followed by publication)
+        fbases = [dict(base, dest=[0o644, 11]), dict(base, dest=None, ow=0, sizes=[3, 4]), dict(base, dest=[0o600, 4], txt=1, perms=0o640, sizes=[70000])]
+        if self.thorough:
+            fbases += [dict(base, ow=ow, dest=dest, txt=txt, sizes=sizes, raises=raises) for ow, dest, txt, sizes, raises in
+                       itertools.product((1, 0), (None, [0o644, 11]), (0, 1), ([], [5], [3, 1, 70000]), (0, 1, 2))]
+        for fb in fbases:
+            calls = self.impl(fb, kills=False)['calls']
+            for k, name in enumerate(calls):
+                for e in FAULT_ERRNO.get(name, (5,)):
+                    yield dict(fb, fault=[k, e])
         # old content == new content, empty old file
         yield dict(base, dest=[0o644, 5], sizes=[5])
         yield dict(base, dest=[0o644, 0], sizes=[])
@@ -258,9 +304,10 @@ class C04(Property):
             if self.thorough and i % 25 == 0:
                 sizes.append(5_000_000)
             yield dict(base, ow=rng.randrange(2), owp=rng.randrange(2), rm=rng.randrange(2), txt=rng.randrange(2),
-                       perms=rng.choice([None, 0o600, 0o640]), umask=rng.choice([0o022, 0o077, 0]),
+                       perms=rng.choice([None, 0o600, 0o640, 0]), umask=rng.choice([0o022, 0o077, 0]),
                        dest=rng.choice([None, [0o644, 11], [0o600, 3]]), part=rng.randrange(2),
-                       raises=1 if rng.random() < 0.25 else 0, sizes=sizes, buffering=rng.choice([-1, -1, -1, 0, 16]))
+                       raises=rng.choice([1, 1, 2, 3, 4, 5]) if rng.random() < 0.3 else 0, sizes=sizes, buffering=rng.choice([-1, -1, -1, 0, 16]),
+                       post=rng.choice([None, None, None, 'seek0', 'readback', 'tell']))
 
     def deep_cases(self, budget_s):
         for c in self.cases(budget_s):
@@ -270,9 +317,10 @@ class C04(Property):
         while True:
             sizes = [rng.choice([0, 1, 2, 7, 100, 4096, 8192, 8193, 70000]) for _ in range(rng.choice([0, 1, 2, 3, 5, 8]))]
             yield dict(base, ow=rng.randrange(2), owp=rng.randrange(2), rm=rng.randrange(2), txt=rng.randrange(2),
-                       perms=rng.choice([None, 0o600, 0o640]), umask=rng.choice([0o022, 0o077, 0]),
+                       perms=rng.choice([None, 0o600, 0o640, 0]), umask=rng.choice([0o022, 0o077, 0]),
                        dest=rng.choice([None, [0o644, 11], [0o600, 3]]), part=rng.randrange(2),
-                       raises=1 if rng.random() < 0.25 else 0, sizes=sizes, buffering=rng.choice([-1, -1, 0, 16]))
+                       raises=rng.choice([1, 2, 3, 4, 5]) if rng.random() < 0.3 else 0, sizes=sizes, buffering=rng.choice([-1, -1, 0, 16]),
+                       post=rng.choice([None, None, 'seek0', 'readback', 'tell']))
 
     # ------------------------------------------------------------------ running the real code
     @staticmethod
@@ -310,8 +358,17 @@ class C04(Property):
             with fu.atomic_save(dest, **kw) as f:
                 for n in case['sizes']:
                     f.write('\x01' * n if case['txt'] else b'\x01' * n)
+                # what a body may do besides writing: rewind / read back what it wrote / ask the position
+                post = case.get('post')
+                if post in ('seek0', 'readback'):
+                    f.seek(0)
+                if post == 'readback':
+                    f.read()
+                    f.seek(0)
+                if post == 'tell':
+                    f.tell()
                 if case['raises']:
-                    raise BodyError()
+                    raise RAISE[case['raises']]()
         finally:
             spy.uninstall()
 
@@ -350,7 +407,7 @@ class C04(Property):
         try:
             d, dest = self.prepare(case)
             tr = os.path.join(d, 'bv-strace.txt')
-            cj = json.dumps({k: case[k] for k in ('ow', 'owp', 'rm', 'txt', 'perms', 'umask', 'sizes', 'raises', 'buffering')})
+            cj = json.dumps(dict({k: case[k] for k in ('ow', 'owp', 'rm', 'txt', 'perms', 'umask', 'sizes', 'raises', 'buffering')}, post=case.get('post')))
             p = subprocess.run([self.have_strace(), '-f', '-s', '16', '-o', tr, '-e', 'trace=' + SYS_TRACE,
                                 sys.executable, '-c', SYS_CHILD, REPO, dest, cj],
                                stdout=subprocess.PIPE, stderr=subprocess.PIPE, text=True, timeout=60)
@@ -387,10 +444,11 @@ class C04(Property):
                 # 1. recorded run, in process
                 d, dest = self.prepare(case)
                 dirs.append(d)
-                spy = Spy(dest)
+                plan = {case['fault'][0]: case['fault'][1]} if case.get('fault') else None
+                spy = Spy(dest, plan=plan)
                 try:
                     self.do_save(fu, dest, case, spy)
-                except BodyError:
+                except BODY_EXC:
                     obs['out'] = 'body'
                 except OSError as e:
                     obs['out'] = 'os:%s' % (e.errno,)
@@ -400,6 +458,7 @@ class C04(Property):
                     obs['out'] = 'exc:' + exc_name(e)
                 obs['events'] = spy.events()
                 obs['calls'] = spy.calls()
+                obs['fired'] = int(any(r.get('injected') for r in spy.log))
                 obs['final'] = classify(old, new, self.look(dest))
                 names = sorted(os.listdir(d))
                 obs['part'] = 1 if PART in names else 0
@@ -414,7 +473,7 @@ class C04(Property):
                     if pid == 0:
                         try:
                             try:
-                                self.do_save(fu, destk, case, Spy(destk, kill_at=k))
+                                self.do_save(fu, destk, case, Spy(destk, kill_at=k, plan=plan))
                             except BaseException:
                                 pass
                         finally:
@@ -511,7 +570,16 @@ class C04(Property):
         # a with-block that exits normally leaves the complete new content and no part file
         refused = (not case['ow']) and case['dest'] is not None
         blocked = case['part'] and not case['owp']
-        if not case['raises'] and not refused and not blocked:
+        if obs.get('fired'):
+            # an operating-system failure was injected at one call (what the caller is told is C05's business):
+            # the destination is the old one, or the complete new content put there by a publishing event
+            st['faulted_saves'] = st.get('faulted_saves', 0) + 1
+            if obs['final'] not in (old_letter, 'n', 'b'):
+                return Failure('partial-destination', 'after a failed %s the destination is %s' % (
+                    obs['calls'][case['fault'][0]], obs['final']))
+            if obs['final'] == 'n' and old_letter != 'n' and not pubs:
+                return Failure('dest-touched', 'new content at the destination without a publishing event')
+        elif not case['raises'] and not refused and not blocked:
             if obs['out'] != 'ok':
                 return Failure('normal-exit', 'a save with nothing in its way raised %s' % obs['out'])
             if obs['final'] not in ('n', 'b'):
@@ -560,6 +628,10 @@ class C04(Property):
             yield dict(case, txt=0)
         if case['raises']:
             yield dict(case, raises=0)
+        if case['raises'] > 1:
+            yield dict(case, raises=1)
+        if case.get('post'):
+            yield dict(case, post=None)
         if case['part']:
             yield dict(case, part=0, owp=0)
         if case['perms'] is not None:
